@@ -1,5 +1,5 @@
 """C12 - sparse kernels: concurrency-structure clauses (E5). Values (A*X = Y, Schur identities) are NOT decided."""
-import e5_locks
+import e5_locks, e17_schur
 
 LEVEL = 'other'
 EXPLANATION = ('Guard live-range dataflow + call-graph reachability on the MIR of yui_matrix::sparse::{triang,schur,decomp}: '
@@ -7,8 +7,9 @@ EXPLANATION = ('Guard live-range dataflow + call-graph reachability on the MIR o
                'rayon (re-entrancy under work stealing would double-borrow the cell and, worse, let two columns share one '
                'scratch buffer); (L2) the union-find mutex in group_cols is never re-locked while a guard from the same object is '
                'alive (std Mutex is not re-entrant: the temporaries\' lifetimes decide). Same on one thread and on many because the '
-               'rules quantify over code paths. NOT decided: that the scratch returns to zero, A*X = Y, the Schur identities, the '
-               'block decomposition.')
+               'rules quantify over code paths. (E17) the block expressions of the Schur reduction, read from the code, satisfy s = d - c a^-1 b, '
+               'F_tgt*M*B_src = s, F*B = 1 and the chain-map conditions in the free non-commutative algebra, under the contract of the '
+               'triangular solvers. NOT decided: that the solvers meet that contract (A*X = Y, scratch returns to zero), the block decomposition.')
 TRUSTED = ['rustc MIR (guard temporaries are explicit locals with explicit drops)', 'call graph over-approximation as in C11',
            'external crates other than rayon do not spawn rayon work']
 
@@ -25,6 +26,8 @@ def run(ctx, rep):
     rep.rule('E5', e5_locks.__doc__.strip().split('\n')[0])
     summ = e5_locks.Summaries(facts)
     e5_locks.check_guards(facts, rep, summ, in_scope, 'sparse kernels', 5)
+    rep.rule('E17', e17_schur.__doc__.strip().split('\n')[0])
+    e17_schur.run(facts, rep)
     sites = [s for s in summ.rayon_sites if any(s[0].startswith(p) for p in ('yui_matrix::sparse::triang', 'yui_matrix::sparse::schur', 'yui_matrix::sparse::decomp'))]
     rep.floor('E5 rayon entry sites in triang/schur/decomp', len(sites), 6)
     rep.inventory['L4 rayon entry sites (sparse kernels)'] = sorted({'%s @ %s' % (s[0], s[1]) for s in sites})
